@@ -57,6 +57,10 @@ typedef struct {
  *   TAG_VOID:   nothing (0 extra bytes)
  * ======================================================================== */
 
+/* Number of bytes cop_serialize_value() needs for this value (callers size
+ * their buffers from it instead of guessing). */
+uint64_t cop_value_size(const NanoValue *val);
+
 /* Serialize a NanoValue into a buffer. Returns bytes written.
  * Buffer must be at least 13 bytes (1 tag + max 8 payload + 4 len). */
 uint32_t cop_serialize_value(const NanoValue *val, uint8_t *buf, uint32_t buf_size);
